@@ -1,7 +1,7 @@
 (* C19: block-level facts about the watch model of Lang/TokWatch.v (the functions run inside one atomic block), and
    their relation to the protocol machine of Lang/TokWatchSpec.v. *)
-From Coq Require Import List NArith Bool Arith Lia.
-From SV Require Import Prim.Objects Lang.Code Lang.TokWatch Lang.TokWatchSpec.
+From Coq Require Import List NArith Bool Arith Lia ZifyN.
+From SV Require Import Prim.Objects Engine.Exec Lang.Code Lang.TokWatch Lang.TokWatchSpec.
 Import ListNotations.
 Local Open Scope N_scope.
 
@@ -74,4 +74,81 @@ Proof.
   - apply N.eqb_neq in E1. assert (v / 2 <> s / 2) by lia.
     replace (Nat.eqb (N.to_nat (v / 2)) (N.to_nat (s / 2))) with false by (symmetry; apply Nat.eqb_neq; lia).
     reflexivity.
+Qed.
+
+(* ---------------- the blocks that change the cell, against the protocol machine's steps ---------------- *)
+Definition abs_closed (x : watch) : bool := st_closed (wt_state x).
+
+Lemma div2_add2 : forall s, (s + 2) / 2 = s / 2 + 1.
+Proof. intros. replace (s + 2) with (s + 1 * 2) by lia. rewrite N.div_add by lia. reflexivity. Qed.
+
+Lemma mod2_add2 : forall s, (s + 2) mod 2 = s mod 2.
+Proof. intros. replace (s + 2) with (s + 1 * 2) by lia. apply N.mod_add. lia. Qed.
+
+(* WCommit: the version advances by exactly one step, the value is the one sent, the CLOSED bit, the counts, the
+   endpoint table and every receiver's version are untouched; the block returns the previous value *)
+Lemma commit_fun_refines : forall v x,
+  let x' := fst (commit_fun v x) in
+  abs_ver x' = S (abs_ver x) /\ wt_value x' = v /\ abs_closed x' = abs_closed x /\
+  wt_rx x' = wt_rx x /\ wt_tx x' = wt_tx x /\ wt_rxc x' = wt_rxc x /\ wt_txc x' = wt_txc x /\
+  snd (commit_fun v x) = [wt_value x].
+Proof.
+  intros v x. unfold commit_fun, abs_ver, abs_closed, st_closed. cbn [fst snd wt_set_state wt_set_value wt_state wt_value wt_rx wt_tx wt_rxc wt_txc].
+  rewrite div2_add2, mod2_add2. repeat split; try reflexivity. lia.
+Qed.
+
+(* so a receiver that was up to date is behind after a commit, and has_changed / maybe_changed will say so *)
+Lemma commit_fun_makes_stale : forall v x slot,
+  abs_seen x slot = abs_ver x -> abs_seen (fst (commit_fun v x)) slot <> abs_ver (fst (commit_fun v x)).
+Proof.
+  intros v x slot H. destruct (commit_fun_refines v x) as (Hv & _ & _ & Hrx & _).
+  unfold abs_seen, wt_ver in *. rewrite Hrx, Hv. fold (wt_ver x slot). unfold wt_ver. lia.
+Qed.
+
+(* WDropTx: only the last sender's drop sets CLOSED, and it never moves the version *)
+Lemma drop_tx_fun_refines : forall slot x,
+  let x' := fst (drop_tx_fun slot x) in
+  abs_ver x' = abs_ver x /\ wt_value x' = wt_value x /\ wt_rx x' = wt_rx x /\
+  (wt_txc x = 1 -> abs_closed x' = true /\ snd (drop_tx_fun slot x) = [1]) /\
+  (wt_txc x <> 1 -> abs_closed x' = abs_closed x /\ snd (drop_tx_fun slot x) = [0]).
+Proof.
+  intros slot [v st rc tc tx rx]. unfold drop_tx_fun, abs_ver, abs_closed, st_closed.
+  cbn [wt_txc wt_state wt_value wt_rx wt_rxc wt_tx wt_set_tx wt_set_txc].
+  assert (Hs : st = 2 * (st / 2) + st mod 2) by (apply N.div_mod; lia).
+  assert (Hm : st mod 2 < 2) by (apply N.mod_lt; lia).
+  destruct (N.eqb tc 1) eqn:E.
+  - apply N.eqb_eq in E. destruct (N.eqb (st mod 2) 1) eqn:C; cbn [fst snd wt_set_state wt_state wt_value wt_rx].
+    + split; [reflexivity|]. split; [reflexivity|]. split; [reflexivity|]. split.
+      * intros _. split; [exact C|reflexivity].
+      * intros H. congruence.
+    + apply N.eqb_neq in C.
+      assert (Hz : st mod 2 = 0) by lia. rewrite Hz in Hs.
+      assert (Hd : (st + 1) / 2 = st / 2).
+      { symmetry. apply (N.div_unique (st + 1) 2 (st / 2) 1); [lia|]. rewrite Hs at 1. lia. }
+      assert (Hc : (st + 1) mod 2 = 1).
+      { symmetry. apply (N.mod_unique (st + 1) 2 (st / 2) 1); [lia|]. rewrite Hs at 1. lia. }
+      split; [rewrite Hd; reflexivity|]. split; [reflexivity|]. split; [reflexivity|]. split.
+      * intros _. split; [rewrite Hc; reflexivity|reflexivity].
+      * intros H. congruence.
+  - apply N.eqb_neq in E. cbn [fst snd wt_state wt_value wt_rx].
+    split; [reflexivity|]. split; [reflexivity|]. split; [reflexivity|]. split.
+    + intros H. congruence.
+    + intros _. split; reflexivity.
+Qed.
+
+(* subscribe: the new receiver has seen the current version (it is told only of later changes) *)
+Lemma subscribe_fun_refines : forall rslot x, (rslot < length (wt_rx x))%nat ->
+  let x' := fst (subscribe_fun rslot x) in
+  abs_seen x' rslot = abs_ver x' /\ abs_ver x' = abs_ver x /\ wt_value x' = wt_value x /\ wt_rxc x' = wt_rxc x + 1.
+Proof.
+  intros rslot x Hl. unfold subscribe_fun, abs_seen, abs_ver, wt_ver.
+  cbn [fst wt_set_rx wt_set_rxc wt_state wt_value wt_rx wt_rxc].
+  assert (Hn : nth rslot (list_upd (wt_rx x) rslot (fun _ => (true, st_version (wt_state x)))) (false, 0) = (true, st_version (wt_state x))).
+  { revert rslot Hl. generalize (wt_rx x). induction l as [|a l IH]; intros r Hr; simpl in Hr; [lia|].
+    destruct r; simpl; [reflexivity|]. apply IH. lia. }
+  rewrite Hn. cbn [snd]. unfold st_version.
+  assert (Hs : wt_state x = 2 * (wt_state x / 2) + wt_state x mod 2) by (apply N.div_mod; lia).
+  assert (Hm : wt_state x mod 2 < 2) by (apply N.mod_lt; lia).
+  repeat split; try reflexivity.
+  f_equal. symmetry. apply N.div_unique with (r := 0); lia.
 Qed.
